@@ -68,6 +68,9 @@ class C08:
         return None
 
     def iter_sources(self, t) -> List[tuple]:
+        if t[0] == "call" and t[1] in (("builtin", "list"), ("builtin", "tuple")) and len(t[2]) == 1 and not t[3] \
+                and (t[2][0][0] == "bin" or (t[2][0][0] == "call" and t[2][0][1][0] == "ext" and t[2][0][1][1] == "itertools.chain")):
+            return self.iter_sources(t[2][0])
         if t[0] == "bin" and t[1] == "+":
             return self.iter_sources(t[2]) + self.iter_sources(t[3])
         if t[0] == "call" and t[1][0] == "ext" and t[1][1] in ("itertools.chain",):
@@ -338,7 +341,7 @@ class C08:
                         f"appended instead of exactly one", s.node.lineno, witness={"case": cname})
                 continue
             a = live_apps[0]
-            mt = self.match_term(a.term[2][0], env)
+            mt = self.match_term(peval(a.term[2][0], env), env)
             if mt is None:
                 ctx.undec("R08.7", f"{self.file}:{a.lineno} evaluate_clip", f"case {cname}: cannot resolve the appended Match")
                 continue
@@ -531,6 +534,8 @@ class C08:
         CE = ("global", "soundevent.data.clip_evaluations:ClipEvaluation", "class")
         ce = [x for r in s_clip.returns for x in walk(r.term) if x[0] == "call" and x[1] == CE]
         lst = apps[0].term[1][1] if apps else None
+        if lst is not None and lst in s_clip.alloc_comps:
+            lst = s_clip.alloc_comps[lst]  # a list filled by one append site is read as its comprehension afterwards
         if len(ce) == 1 and lst is not None:
             kw = callkw(ce[0])
             sc = kw.get("score")
